@@ -243,7 +243,11 @@ func (g *gen) freshHeaders(n int, valid bool) []hHeader {
 				g.r.Fill(hd.Prev[:])
 			}
 		}
-		prev = hd.mine(valid || g.r.Intn(2) == 0)
+		if hd.Bits != regBits {
+			prev = hd.mine(false) // a real-network target cannot be met here: leave the hash above it
+		} else {
+			prev = hd.mine(valid || g.r.Intn(2) == 0)
+		}
 		hs = append(hs, hd)
 	}
 	return hs
@@ -457,6 +461,41 @@ func describeCount(nv, v uint64) string {
 	return "small"
 }
 
+// mutCountCut: a count/length field set to a huge value and the data ending inside (or right at
+// the start of) the first element that follows it.
+func (g *gen) mutCountCut(p *pbuf) ([]byte, string) {
+	if len(p.cnts) == 0 {
+		return g.mutTrunc(p)
+	}
+	ci := g.r.Intn(len(p.cnts))
+	if g.r.Intn(2) == 0 {
+		ci = 0
+	}
+	c := p.cnts[ci]
+	nv := []uint64{0xffffffff, 1 << 32, 1 << 40, 1 << 62, 1<<63 - 1, 0x7fffffff, 1 << 24}[g.r.Intn(7)]
+	enc := varint(nv)
+	end := c.Off + c.W
+	// cut at one of the next few field boundaries, or a few bytes into the element
+	var cands []int
+	for _, b := range p.bounds {
+		if b >= end && len(cands) < 6 {
+			cands = append(cands, b)
+		}
+	}
+	cut := end + g.r.Intn(48)
+	if len(cands) > 0 && g.r.Intn(4) != 0 {
+		cut = cands[g.r.Intn(len(cands))] + []int{0, 0, 0, 1, 2, -1}[g.r.Intn(6)]
+	}
+	if cut > len(p.b) {
+		cut = len(p.b)
+	}
+	if cut < end {
+		cut = end
+	}
+	out := append(append(append([]byte{}, p.b[:c.Off]...), enc...), p.b[end:cut]...)
+	return out, fmt.Sprintf("%s#%d=huge+cut", c.Kind, ci)
+}
+
 func (g *gen) mutTrunc(p *pbuf) ([]byte, string) {
 	if len(p.b) == 0 {
 		return nil, "trunc@0"
@@ -571,7 +610,7 @@ func (g *gen) wellFormed(cmd string) *pbuf {
 	case "tx":
 		switch g.r.Intn(4) {
 		case 0:
-			return g.tx(h.spendTx(uint64(1000+g.r.Intn(5000)), false))
+			return g.tx(h.spendTx(uint64(1000+g.r.Intn(5000)), 0))
 		case 1:
 			if len(h.mempool) > 0 {
 				return g.tx(h.mempool[g.r.Intn(len(h.mempool))])
@@ -685,9 +724,56 @@ func (g *gen) wellFormedCmpct() *pbuf {
 	return g.cmpct(hdr, nonce, sids, pre)
 }
 
+// embedded: a well-formed envelope (tx / block / cmpctblock / blocktxn) around a transaction
+// serialisation that went through the mutation families (the parsers TxSize / NewTx see it).
+func (g *gen) embedded(cmd string) ([]byte, string, bool) {
+	h := g.h
+	var honest *hTx
+	switch g.r.Intn(3) {
+	case 0:
+		honest = g.oddTx()
+	case 1:
+		honest = h.blocks[g.r.Intn(len(h.blocks))].Txs[0]
+	default:
+		honest = h.spendTx(1500, 0)
+	}
+	bad, tag := g.mutate(honest.build(true), "tx")
+	tag = "embedded-tx/" + tag
+	switch cmd {
+	case "tx":
+		return bad, tag, true
+	case "block":
+		b := h.newTipBlock(nil)
+		p := &pbuf{}
+		p.raw(b.Hdr.ser())
+		n := 1 + g.r.Intn(2)
+		p.count(uint64(n), 0, "count")
+		if n == 2 {
+			p.raw(b.Txs[0].ser())
+		}
+		p.raw(bad)
+		return p.b, tag, true
+	case "cmpctblock":
+		b := h.newTipBlock(nil)
+		if g.r.Intn(2) == 0 {
+			return g.cmpct(b.Hdr.ser(), g.r.U64(), nil, []prefilled{{0, bad}}).b, tag, true
+		}
+		sid := g.r.Bytes(6)
+		return g.cmpct(b.Hdr.ser(), g.r.U64(), [][]byte{sid}, []prefilled{{0, b.Txs[0].ser()}, {0, bad}}).b, tag, true
+	case "blocktxn":
+		return g.blocktxn(g.someHash(), [][]byte{bad}).b, tag, true
+	}
+	return nil, "", false
+}
+
 // hostile returns one hostile (or, rarely, well-formed) payload for cmd plus its family tag.
 func (g *gen) hostile(cmd string) ([]byte, string) {
-	switch x := g.r.Intn(20); {
+	if g.r.Intn(5) == 0 {
+		if b, tag, ok := g.embedded(cmd); ok {
+			return b, tag
+		}
+	}
+	switch x := g.r.Intn(22); {
 	case x < 3:
 		return g.wellFormed(cmd).b, "wellformed"
 	case x < 8:
@@ -696,6 +782,8 @@ func (g *gen) hostile(cmd string) ([]byte, string) {
 		return g.mutCount(g.wellFormed(cmd))
 	case x < 17:
 		return g.mutBytes(g.wellFormed(cmd))
+	case x < 19:
+		return g.mutCountCut(g.wellFormed(cmd))
 	default:
 		return g.sizeClass(cmd)
 	}
@@ -876,6 +964,10 @@ func (g *gen) cmpctFlow(s *script) {
 			add(wireMsg{Cmd: "blocktxn", Pl: g.blocktxn(b.Hash, txs).b, Tag: "flow/complete"})
 			add(wireMsg{Cmd: "blocktxn", Pl: g.blocktxn(b.Hash, txs).b, Tag: "flow/repeated"})
 		}
+		if r.Intn(3) == 0 { // the awaited answer carries a mutated transaction
+			bad, tag := g.mutate(g.oddTx().build(true), "tx")
+			s.Msgs[len(s.Msgs)-1] = wireMsg{Cmd: "blocktxn", Pl: g.blocktxn(b.Hash, [][]byte{bad}).b, Tag: "flow/embedded-tx/" + tag}
+		}
 		if r.Intn(3) == 0 {
 			add(g.hostileMsg([]string{"getblocktxn", "getdata", "cmpctblock", "block"}[r.Intn(4)]))
 		}
@@ -891,7 +983,7 @@ func (g *gen) blockFlow(s *script) {
 	for round := 1 + r.Intn(3); round > 0; round-- {
 		var txs []*hTx
 		if r.Intn(2) == 0 {
-			txs = append(txs, h.spendTx(2000, false))
+			txs = append(txs, h.spendTx(2000, 0))
 		}
 		b := h.newTipBlock(txs)
 		if r.Intn(2) == 0 {
